@@ -502,7 +502,7 @@ static bool write_with_packet_writer(const std::string& path, int lt, Rng& rng, 
         u32 sec = rd32(file, o), usec = rd32(file, o + 4), incl = rd32(file, o + 8), orig = rd32(file, o + 12); o += 16;
         if (incl != x.bytes.size() || o + incl > file.size()) return bad("writer/caplen", "record has incl_len=" + std::to_string(incl) + " but the packet serializes to " + std::to_string(x.bytes.size()) + " bytes" + at);
         if (memcmp(&file[o], x.bytes.data(), incl) != 0) return bad("writer/bytes", "record bytes " + hex(&file[o], incl, 120) + " differ from the packet's serialization" + at);
-        if (orig < incl) violation(std::string("writer/orig-len-below-incl-len") + (x.stale ? "/never-serialized-packet" : ""), "record has orig_len=" + std::to_string(orig) + " < incl_len=" + std::to_string(incl) + " (an invalid pcap record: the wire length cannot be below the captured length)" + at + " :: " + ctx);
+        if (orig < incl) cnt(std::string("observation:writer-orig-len-below-incl-len") + (x.stale ? "(never-serialized packet: PacketWriter takes orig_len from advertised_size() before serialize())" : ""));   // not part of the C17 statement (bytes, order and timestamps round-trip): observation only
         else if (x.clean && !x.stale && orig != incl) return bad("writer/orig-len", "record of an API-built packet has orig_len=" + std::to_string(orig) + " != incl_len=" + std::to_string(incl) + at);
         if (x.exact_ts) { if (sec != x.sec || usec != x.usec) return bad("writer/timestamp", "record timestamp " + std::to_string(sec) + "." + std::to_string(usec) + " != packet timestamp " + std::to_string(x.sec) + "." + std::to_string(x.usec) + at); cnt("writer:timestamps-exact"); }
         else { if ((long)sec + 2 < (long)t0.tv_sec || (long)sec > (long)t1.tv_sec + 2 || usec > 999999) return bad("writer/wallclock-timestamp", "record timestamp " + std::to_string(sec) + "." + std::to_string(usec) + " is not the time of the write(PDU&) call" + at); cnt("writer:timestamps-wallclock"); }
